@@ -1029,6 +1029,13 @@ def value_pool_small():
     return _SMALLPOOL
 
 
+def is_builtin_instance(x):
+    """an instance of one of the types netref pre-builds proxy classes for (`netref._builtin_types`): the listed known
+    finding is about those only - an instance of a USER class must never show it"""
+    from rpyc.core import netref
+    return type(x) in netref._builtin_types
+
+
 def safe_hasattr(o, n):
     try:
         return hasattr(o, n)
@@ -1252,7 +1259,9 @@ def run_sequence(kind, config_name, seed, seq, ops, stop_at_first=True, skip_sig
                     # collisions; members that went through the connection are equal, not identical
                     res_p, res_t = ("ok", sorted(str(res_p[1]))), ("ok", sorted(str(res_t[1])))
                 if res_p != res_t:
-                    if label in ("op:or", "rop:or", "iop:ior") and res_p == ("exc", "AttributeError") and res_t == ("exc", "TypeError"):
+                    involved = [tw.twin] + [o.for_twin for o in operands if o.origin == "target-side object"]
+                    if label in ("op:or", "rop:or", "iop:ior") and res_p == ("exc", "AttributeError") and res_t == ("exc", "TypeError") \
+                            and any(is_builtin_instance(x) for x in involved):
                         sig = KNOWN_TYPE_METHODS
                     else:
                         sig = "twin:" + label.split("/")[0]
@@ -1271,6 +1280,105 @@ def run_sequence(kind, config_name, seed, seq, ops, stop_at_first=True, skip_sig
         problems.append((len(seq), "end", "the serving side died: %r" % (died[:1],)))
     problems = [p_ if len(p_) == 4 else (p_[0], p_[1], p_[2], "twin:" + p_[1].split("/")[0].split(":")[0]) for p_ in problems]
     return problems, tw
+
+
+CLASS_INSTANCE_TARGETS = {
+    "Pairs": (lambda: Pairs, lambda: Pairs(5), (9,)),
+    "Vec": (lambda: Vec, lambda: Vec([3, 1, 2]), ((4, 5),)),
+    "Shape-seq": (lambda: SHAPES["shape-seq"], lambda: SHAPES["shape-seq"](7), (3,)),
+    "Shape-ops": (lambda: SHAPES["shape-ops"], lambda: SHAPES["shape-ops"](7), (3,)),
+    "Shape-ctx": (lambda: SHAPES["shape-ctx"], lambda: SHAPES["shape-ctx"](7), (3,)),
+}
+
+
+def class_instance_case(cls_name, order, config_name):
+    """a user class K and one of its instances v fetched over ONE connection, the class first or the instance first; the
+    proxy type of the one must not serve the other: construct through the class, callable() on both, isinstance,
+    __class__, `|` on the instance, len / iteration where defined - each compared with the same thing done locally.
+    Returns (steps, problems)."""
+    get_cls, make_inst, ctor_args = CLASS_INSTANCE_TARGETS[cls_name]
+    K, v, v2 = get_cls(), make_inst(), make_inst()
+    sess = Session(config_name)
+    steps, problems = [], []
+    try:
+        if order == "class-first":
+            Kp = sess.lend(K)
+            vp = sess.lend(v)
+        else:
+            vp = sess.lend(v)
+            Kp = sess.lend(K)
+
+        def show(r, via_proxy):
+            from rpyc.core import brine
+            if brine.dumpable(r):
+                return ("v", valtext.canon(mask(r)))
+            if type(r) is tuple:
+                return ("tuple", [show(x, via_proxy) for x in r])
+            if via_proxy:
+                if not sess.is_proxy(r):
+                    return ("local-object", type(r).__name__)
+                real = sess.behind(r)
+                return ("the class",) if real is K else ("the instance",) if real is v else ("fresh", snap(real))
+            return ("the class",) if r is K else ("the instance",) if r is v2 else ("fresh", snap(r))
+
+        checks = [
+            ("callable(K)", lambda k, x: callable(k)),
+            ("callable(v)", lambda k, x: callable(x)),
+            ("K(*args)", lambda k, x: k(*ctor_args)),
+            ("len(K(*args)) / describe", lambda k, x: (lambda w: (safe(lambda: len(w)), safe(lambda: w.describe())))(k(*ctor_args))),
+            ("isinstance(v, K)", lambda k, x: isinstance(x, k)),
+            ("isinstance(K(*args), K)", lambda k, x: isinstance(k(*ctor_args), k)),
+            ("v.__class__ is the class", lambda k, x: same_class(x.__class__, K, sess)),
+            ("K.__name__", lambda k, x: k.__name__),
+            ("v | 1", lambda k, x: x | 1),
+            ("1 | v", lambda k, x: 1 | x),
+            ("v |= 1", lambda k, x: operator.ior(x, 1)),
+            ("len(v)", lambda k, x: len(x)),
+            ("tuple(v)", lambda k, x: tuple(x)),
+            ("K | 1", lambda k, x: k | 1),
+            ("bool(v)", lambda k, x: bool(x)),
+            ("hash(K) is an int", lambda k, x: type(hash(k)) is int),
+        ]
+        for label, fn in checks:
+            (kp, valp), exp = outcome(lambda: fn(Kp, vp))
+            if exp is not None and is_policy_denial(exp):
+                steps.append((label, "refused by the configuration", None))
+                continue
+            (kt, valt), ext = outcome(lambda: fn(K, v2))
+            rp = (kp, show(valp, True)) if kp == "ok" else (kp, valp)
+            rt = (kt, show(valt, False)) if kt == "ok" else (kt, valt)
+            steps.append((label, str(rp)[:160], str(rt)[:160]))
+            if rp != rt:
+                problems.append((len(steps) - 1, label, "proxy gives %r, the same thing done locally gives %r" % (rp, rt), "twin:class-and-instance"))
+        if snap(v) != snap(v2):
+            problems.append((len(steps), "end", "the instance's state %r differs from its twin's %r" % (snap(v), snap(v2)), "twin:class-and-instance"))
+        if not sess.usable():
+            problems.append((len(steps), "end", "the connection is not usable afterwards", "twin:class-and-instance"))
+    except Exception as ex:  # noqa
+        problems.append((len(steps), "setup", "could not fetch the class and the instance: %s" % type(ex).__name__, "twin:class-and-instance"))
+    finally:
+        died = sess.close()
+    if died:
+        problems.append((len(steps), "end", "the serving side died: %r" % (died[:1],), "twin:class-and-instance"))
+    return steps, problems
+
+
+def safe(fn):
+    try:
+        return fn()
+    except Exception as ex:  # noqa
+        return "!" + type(ex).__name__
+
+
+def same_class(c, K, sess):
+    """`v.__class__` names the class: the class itself (importable by name), or a proxy of it"""
+    if c is K:
+        return True
+    return sess.is_proxy(c) and sess.behind(c) is K
+
+
+def class_instance_cases():
+    return [(n, o, cfg) for n in sorted(CLASS_INSTANCE_TARGETS) for o in ("class-first", "instance-first") for cfg in ("classic", "public")]
 
 
 def with_exception_probe(config_name):
@@ -1360,6 +1468,13 @@ def correspondence(ctx):
                                         op="twin:" + label, impl=text[:700], model="(proxy == twin)"))
         if len(c.samples) < 8 and k % 131 == 7:
             c.samples.append(dict(kind=kind, config=config_name, steps=[(s["label"], s["operands"], str(s["proxy"])[:80]) for s in tw.steps[:8]]))
+    for (cname, order, cfg) in class_instance_cases():
+        steps, problems = class_instance_case(cname, order, cfg)
+        c.evaluations += len(steps)
+        c.count("class-and-instance:%s:%s" % (order, cfg), len(steps))
+        c.signatures.add("class-and-instance:%s:%s:%s" % (cname, order, cfg))
+        for (idx, label, text, sig) in problems:
+            c.disagreements.append(dict(case=dict(class_instance=[cname, order, cfg]), op="class-and-instance:" + label, impl=text[:700], model="(proxy == twin)"))
     try:
         ok, obs = with_exception_probe("classic")
     except Exception as ex:  # noqa
@@ -1564,6 +1679,12 @@ def oracle_search(ctx, corr, broken):
     found = buffiter_oracle()
     if found and found[2] not in known:
         return found
+    for (cname, order, cfg) in class_instance_cases():
+        steps, problems = class_instance_case(cname, order, cfg)
+        problems = [p_ for p_ in problems if p_[3] not in known]
+        if problems:
+            return dict(kind="history", class_instance=[cname, order, cfg], steps=steps), \
+                "a user class and one of its instances on one connection (%s, %s, %s): %s: %s" % (cname, order, cfg, problems[0][1], problems[0][2][:400]), problems[0][3]
     r = Rng(ctx.seed).fork("c02-search")
 
     def candidates():
@@ -1627,6 +1748,11 @@ def _known_probes():
 
 def replay(case):
     out = dict(case=case)
+    if "class_instance" in case:
+        steps, problems = class_instance_case(*case["class_instance"])
+        out["steps"] = steps
+        out["oracle"] = ["%s: %s" % (p_[1], p_[2]) for p_ in problems] or "holds"
+        return out
     if "buffiter" in case:
         b = case["buffiter"]
         sess = Session("classic")
